@@ -134,8 +134,9 @@ def Val.WF : Val → Prop
   | .names l => NamesWF l
   | _ => True
 
-theorem marshalField_isSome (v : Val) : ∃ b, marshalField v = some b := by
+theorem marshalField_isSome (v : Val) (k : Kind) (hk : v.hasKind k = true) : ∃ b, marshalField v = some b := by
   cases v <;> simp [marshalField]
+  case bad p => cases k <;> simp [Val.hasKind] at hk
   rename_i n
   have hl : (marshalInt n).length = intLength n := by
     simp [marshalInt, u32be_length, intLength_eq_body]
@@ -199,13 +200,18 @@ def restLast : List Kind → Bool
   | [_] => true
   | k :: ks => k != .rest && restLast ks
 
-theorem marshalFields_isSome (vs : List Val) : ∃ b, marshalFields vs = some b := by
-  induction vs with
+theorem marshalFields_isSome (vs : List Val) (ks : List Kind) (ht : typed vs ks = true) :
+    ∃ b, marshalFields vs = some b := by
+  induction vs generalizing ks with
   | nil => exact ⟨[], rfl⟩
   | cons v vs ih =>
-    obtain ⟨a, ha⟩ := marshalField_isSome v
-    obtain ⟨b, hb⟩ := ih
-    exact ⟨a ++ b, by simp [marshalFields, ha, hb]⟩
+    cases ks with
+    | nil => simp [typed] at ht
+    | cons k ks =>
+      simp only [typed, Bool.and_eq_true] at ht
+      obtain ⟨a, ha⟩ := marshalField_isSome v k ht.1
+      obtain ⟨b, hb⟩ := ih ks ht.2
+      exact ⟨a ++ b, by simp [marshalFields, ha, hb]⟩
 
 theorem fields_roundtrip (vs : List Val) (ks : List Kind) (body : Bytes)
     (ht : typed vs ks = true) (hrl : restLast ks = true) (hwf : ∀ v ∈ vs, v.WF)
@@ -221,8 +227,8 @@ theorem fields_roundtrip (vs : List Val) (ks : List Kind) (body : Bytes)
     | nil => simp [typed] at ht
     | cons k ks =>
       simp only [typed, Bool.and_eq_true] at ht
-      obtain ⟨a, ha⟩ := marshalField_isSome v
-      obtain ⟨b, hb⟩ := marshalFields_isSome vs
+      obtain ⟨a, ha⟩ := marshalField_isSome v k ht.1
+      obtain ⟨b, hb⟩ := marshalFields_isSome vs ks ht.2
       simp only [marshalFields, ha, hb, Option.some.injEq] at hm
       subst hm
       by_cases hrest : k = .rest
@@ -285,6 +291,7 @@ theorem field_append (k : Kind) (d e : Bytes) (v : Val) (r : Bytes) (hk : k ≠ 
     (h : unmarshalField k d = .ok (v, r)) (hlen : (d ++ e).length < 4294967296) :
     unmarshalField k (d ++ e) = .ok (v, r ++ e) := by
   cases k <;> try (exact absurd rfl hk)
+  case bad p => simp [unmarshalField] at h
   case bool =>
     cases d with
     | nil => simp [unmarshalField] at h
@@ -372,6 +379,7 @@ theorem field_append (k : Kind) (d e : Bytes) (v : Val) (r : Bytes) (hk : k ≠ 
 theorem field_rest_le (k : Kind) (d : Bytes) (v : Val) (r : Bytes)
     (h : unmarshalField k d = .ok (v, r)) : r.length ≤ d.length := by
   cases k
+  case bad p => simp [unmarshalField] at h
   case bool =>
     cases d with
     | nil => simp [unmarshalField] at h
